@@ -321,6 +321,10 @@ class _ConfigParserDict(collections.OrderedDict):
 
 class _RawConfigParser(configparser.RawConfigParser):
 
+  # Blanks just inside the brackets of a section header are not part of the section's name: '[Pair ]' is [Pair]
+  # (it used to become an unknown section that was ignored, '[Tabulation ]' silently meant the default tabulation).
+  SECTCRE = re.compile(r"\[\s*(?P<header>.*\S)\s*\]")
+
   def __init__(self):
     super(_RawConfigParser, self).__init__(dict_type = _ConfigParserDict, default_section = "Variables", interpolation = configparser.ExtendedInterpolation())
     self._sections = collections.OrderedDict()
